@@ -87,3 +87,14 @@ From RS Require Import PipelineOptStmts PipelineOptFacts.
 Theorem end_to_end_with_modelled_optimiser : stmt_end_to_end_opt.
 Proof. exact end_to_end_opt. Qed.
 Print Assumptions end_to_end_with_modelled_optimiser.
+
+(** the start solution's track clause at its source: the slot distribution (SlotDist.v, f32 arithmetic of F32.v) never hands
+    out more tracks of a slot than it has, summed over all vehicle types; the flow's node bounds are these counts. The
+    hypothesis NoDup (nw_maint nw) holds for every loaded network and is necessary (kernel-checked witness). *)
+From RS Require Import F32 SlotDist SlotDistStmts SlotDistFacts.
+Theorem C02_distributed_slots_within_tracks : stmt_distribute_within_tracks.
+Proof. exact distribute_within_tracks. Qed.
+Print Assumptions C02_distributed_slots_within_tracks.
+Theorem C02_distribution_needs_distinct_slots : stmt_distribute_within_tracks_needs_nodup.
+Proof. exact distribute_within_tracks_needs_nodup. Qed.
+Print Assumptions C02_distribution_needs_distinct_slots.
